@@ -2,6 +2,7 @@ package props
 
 import (
 	"fmt"
+	"regexp"
 	"strings"
 
 	"verifharness/ref"
@@ -200,12 +201,116 @@ func (c *c19ctx) injectCSV() {
 	c.say(what + " -> exit != 0 with a message")
 }
 
+// injectJSONUnencodable: a value the JSON encoder has to refuse (a float that is not finite, a scalar whose tag its text
+// does not fit) in one document of a run printed with -o=json, with and without colours and the other output flags:
+// the run ends with an error, and what was printed before is the results of the documents before it.
+func (c *c19ctx) injectJSONUnencodable() {
+	c.group = "B-inject"
+	c.tag("kind:encode", "encode:json-unencodable")
+	nd := 1 + c.r.IntN(4)
+	k := c.r.IntN(nd)
+	bad := []string{".nan", ".inf", "-.inf", "!!int abc", "!!float x", "[1, .nan]", "{k: .inf}", "[{k: [-.inf]}]"}[c.r.IntN(8)]
+	var sb strings.Builder
+	var firsts []string
+	for di := 0; di < nd; di++ {
+		if di > 0 {
+			sb.WriteString("---\n")
+		}
+		if di == k {
+			sb.WriteString("a: " + bad + "\n")
+			continue
+		}
+		v := c.str().S
+		firsts = append(firsts, v)
+		sb.WriteString("a: " + v + "\n")
+	}
+	c.write("f0.yaml", sb.String())
+	flags := [][]string{{"-C"}, {"-C", "-I0"}, {"-M"}, {}, {"-C", "-P"}, {"--colors", "-I=4"}}[c.r.IntN(6)]
+	c.tag("flags:" + strings.Join(flags, ","))
+	what := fmt.Sprintf("value %s (not encodable as JSON) in document %d of %d, flags %v", bad, k, nd, flags)
+	x := c.yq(nil, append(append([]string{"-o=json"}, flags...), ".a", "f0.yaml")...)
+	if x.TimedOut || !c.failedProperly(x, what) {
+		return
+	}
+	// colour escapes removed, the output before the failure is the strings of the documents before it
+	plain := regexp.MustCompile("\x1b\\[[0-9;]*m").ReplaceAllString(string(x.Stdout), "")
+	got, err := ref.ParseJSONStream(plain)
+	if err != nil || len(got) > k {
+		c.violate("%s: stdout of the failed run holds %d results (err=%v), only %d documents precede the failure: %q", what, len(got), err, k, clipStr(plain, 300))
+		return
+	}
+	for i := range got {
+		if got[i].K != ref.Str || got[i].S != firsts[i] {
+			c.violate("%s: result #%d printed before the failure is %s, expected %q", what, i, got[i].JSON(), firsts[i])
+			return
+		}
+	}
+	c.res.Nontrivial = true
+	c.say(what + " -> exit != 0 with a message")
+}
+
+// injectXML: several XML inputs (one decoder object serves them all), one of them not well-formed: the run ends with an
+// error whatever the position of that file, and every well-formed file before it has contributed its result.
+func (c *c19ctx) injectXML() {
+	c.group = "B-inject"
+	c.tag("kind:syntax", "input:xml")
+	nf := 1 + c.r.IntN(3)
+	if c.r.IntN(2) == 0 {
+		nf = 2 + c.r.IntN(2)
+	}
+	j := c.r.IntN(nf)
+	var names, firsts []string
+	for fi := 0; fi < nf; fi++ {
+		v := c.str().S
+		text := fmt.Sprintf("<r><a>%s</a><b>%d</b></r>\n", v, c.r.IntN(90))
+		if fi == j {
+			// cut short inside an element / inside a tag, not XML at all, text outside the root element
+			// (mismatched or surplus closing tags are accepted by design: the decoder reads raw tokens)
+			text = []string{"<r><a>" + v + "</a>", "<r><a>" + v, "<r>", "<r><a>" + v + "</a></r", "<<<", "junk<r><a>" + v + "</a></r>", "<r><a>" + v + "</a><b>1</b>"}[c.r.IntN(7)] + "\n"
+			c.note("broken_document", text)
+		} else {
+			firsts = append(firsts, v)
+		}
+		name := fmt.Sprintf("f%d.xml", fi)
+		c.write(name, text)
+		names = append(names, name)
+	}
+	c.tag(fmt.Sprintf("at:f%d", j))
+	what := fmt.Sprintf("XML file %d of %d is not well-formed", j, nf)
+	mode := []string{"eval", "eval-all"}[c.r.IntN(2)]
+	x := c.yq(nil, append([]string{mode, "-o=json", "-I0", ".r.a"}, names...)...)
+	if x.TimedOut || !c.failedProperly(x, what+" ("+mode+")") {
+		return
+	}
+	got, err := ref.ParseJSONStream(string(x.Stdout))
+	if err != nil || len(got) > j {
+		c.violate("%s: stdout of the failed run holds %d results (err=%v), only %d files precede the failure: %q", what, len(got), err, j, clipStr(string(x.Stdout), 300))
+		return
+	}
+	for i := range got {
+		if got[i].K != ref.Str || got[i].S != firsts[i] {
+			c.violate("%s: result #%d printed before the failure is %s, expected %q", what, i, got[i].JSON(), firsts[i])
+			return
+		}
+	}
+	c.res.Nontrivial = true
+	c.say(what + " -> exit != 0 with a message")
+}
+
 func (c *c19ctx) injectB1(n int) {
 	c.group = "B-inject"
-	kinds := []string{"syntax", "missing", "dir", "type", "encode"}
+	kinds := []string{"syntax", "missing", "dir", "type", "encode", "xml"}
 	kind := kinds[n%len(kinds)]
-	if kind == "syntax" && c.r.IntN(2) == 0 {
+	if kind == "xml" {
+		c.injectXML()
+		return
+	}
+	if kind == "syntax" && c.r.IntN(5) < 3 {
 		c.injectCSV()
+		return
+	}
+	if (kind == "encode" || kind == "missing" || kind == "dir") && c.r.IntN(2) == 0 {
+		c.injectJSONUnencodable()
 		return
 	}
 	if kind == "dir" && c.r.IntN(2) == 0 {
